@@ -446,6 +446,12 @@ class Mx:
     def topRows(s, n): return s.view(0, 0, _i(n), s.c)
     def bottomRows(s, n): return s.view(s.r - _i(n), 0, _i(n), s.c)
     def block(s, i, j, nr, nc): return s.view(_i(i), _i(j), _i(nr), _i(nc))
+    def topLeftCorner(s, nr, nc): return s.view(0, 0, _i(nr), _i(nc))
+    def topRightCorner(s, nr, nc): return s.view(0, s.c - _i(nc), _i(nr), _i(nc))
+    def bottomLeftCorner(s, nr, nc): return s.view(s.r - _i(nr), 0, _i(nr), _i(nc))
+    def bottomRightCorner(s, nr, nc): return s.view(s.r - _i(nr), s.c - _i(nc), _i(nr), _i(nc))
+    def middleCols(s, j, n): return s.view(0, _i(j), s.r, _i(n))
+    def middleRows(s, i, n): return s.view(_i(i), 0, _i(n), s.c)
     def transpose(s): return Mx(s.c, s.r, [[s.g(i, j) for i in range(s.r)] for j in range(s.c)])
     def selfadjointViewLower(s): return Mx(s.r, s.c, [[s.g(max(i, j), min(i, j)) for j in range(s.c)] for i in range(s.r)])
     def diagonal(s): return MxDiag(s)
@@ -618,6 +624,23 @@ class MxWise:
     def norm(s): return s._out([p.norm() for p in s._parts()])
     def squaredNorm(s): return s._out([p.squaredNorm() for p in s._parts()])
     def sum(s): return s._out([p.sum() for p in s._parts()])
+    def normalize(s):
+        for p in s._parts():
+            p.normalize()
+
+
+class BoolArr(list):
+    """Eigen::Array<bool, Dynamic, 1>: elements are Python bools or sympy relations"""
+    def head(s, n): return BoolArr(s[:_i(n)])
+    def tail(s, n): return BoolArr(s[len(s) - _i(n):])
+    def size(s): return len(s)
+    def all(s): return sp.And(*[sp.true if x is True else (sp.false if x is False else x) for x in s]) if s else True
+    def any(s): return sp.Or(*[sp.true if x is True else (sp.false if x is False else x) for x in s]) if s else False
+    def count(s):
+        if not all(isinstance(x, bool) for x in s):
+            raise Unsupported('count() of a boolean array with undecided entries')
+        return sum(1 for x in s if x)
+    def copy(s): return BoolArr(s)
 
 
 class MxDiag(Mx):
@@ -990,6 +1013,8 @@ class Exec:
         raise Unsupported('operator %s on %r, %r' % (op, type(a), type(b)))
 
     def compare(s, op, a, b):
+        if isinstance(a, BoolArr) and isinstance(b, bool) and op in ('==', '!='):
+            return BoolArr([(x == b) if isinstance(x, bool) else (x if b else sp.Not(x)) for x in a]) if op == '==' else BoolArr([(x != b) if isinstance(x, bool) else (sp.Not(x) if b else x) for x in a])
         if isinstance(a, bool): a = int(a)
         if isinstance(b, bool): b = int(b)
         if isinstance(a, int) and isinstance(b, int):
@@ -1003,6 +1028,12 @@ class Exec:
         if a is None or b is None or isinstance(a, (dict, list)) or isinstance(b, (dict, list)):
             if op == '==': return a is b
             if op == '!=': return a is not b
+        if isinstance(a, Mx) and not isinstance(b, Mx):      # coefficient-wise comparison of an array with a scalar
+            out = BoolArr()
+            for x in a.flat():
+                r = REL[op](x.v, SInt.ex(b) if isinstance(b, (int, SInt)) else D.lift(b).v)
+                out.append(bool(r) if r in (sp.true, sp.false) else r)
+            return out
         av = SInt.ex(a) if isinstance(a, (int, SInt)) else D.lift(a).v
         bv = SInt.ex(b) if isinstance(b, (int, SInt)) else D.lift(b).v
         r = REL[op](av, bv)
@@ -1552,7 +1583,17 @@ class Exec:
                 obj.d = [[D(fresh('uninit')) for _ in range(obj.c)] for _ in range(obj.r)]   # Eigen leaves resized storage uninitialised
                 return None
             if name == 'conservativeResize':
-                raise Unsupported('conservativeResize')
+                if obj.base is not None:
+                    raise Unsupported('conservativeResize of a view')
+                dims = [(None if a == 'NoChange' else _i(a)) for a in args]
+                if len(dims) == 1:
+                    dims = [dims[0], 1] if obj.c <= 1 else [1, dims[0]]
+                nr, nc = (obj.r if dims[0] is None else dims[0]), (obj.c if dims[1] is None else dims[1])
+                if not (isinstance(nr, int) and isinstance(nc, int)):
+                    raise Unsupported('conservativeResize to a symbolic size')
+                obj.d = [[obj.d[i][j] if (i < obj.r and j < obj.c) else D(fresh('uninit')) for j in range(nc)] for i in range(nr)]   # old entries kept, new ones uninitialised
+                obj.r, obj.c = nr, nc
+                return None
             if hasattr(obj, name):
                 return getattr(obj, name)(*args)
             raise Unsupported('Eigen member %s' % name)
